@@ -133,3 +133,54 @@ Example request_options_example :
 Proof.
   repeat (split; [try discriminate; vm_compute; reflexivity|]). intros u. destruct u; discriminate.
 Qed.
+
+(* ---------------------------------------------------------------- the Cloudflare-Datadog route *)
+Lemma ddsource_of_query_nonempty : forall q, ddsource_of_query q <> EmptyString.
+Proof.
+  intros q. unfold ddsource_of_query. destruct (String.eqb q "") eqn:E; [discriminate|].
+  intro H. rewrite H in E. discriminate.
+Qed.
+
+Lemma ddsource_of_query_written : forall q, q <> EmptyString -> ddsource_of_query q = q.
+Proof.
+  intros q H. unfold ddsource_of_query. destruct (String.eqb q "") eqn:E; [|reflexivity].
+  apply String.eqb_eq in E. congruence.
+Qed.
+
+Lemma cf_labels_head : forall s l, s <> EmptyString -> exists rest, cf_labels s l = ("ddsource"%string, s) :: rest.
+Proof.
+  intros s l H. unfold cf_labels. cbn [filter]. unfold nonempty_label at 1. cbn [snd].
+  destruct (String.eqb s "") eqn:E; [apply String.eqb_eq in E; congruence|]. cbn [negb]. eexists. reflexivity.
+Qed.
+
+Lemma entries_cf_ddsource : forall s ck lines, s <> EmptyString ->
+  Forall (fun e => exists rest, e_labels e = ("ddsource"%string, s) :: rest) (entries_cf s ck lines).
+Proof.
+  intros s ck lines H. unfold entries_cf. apply Forall_forall. intros e Hin. apply in_map_iff in Hin.
+  destruct Hin as [p [Hp _]]. subst e. cbn [e_labels]. now apply cf_labels_head.
+Qed.
+
+Section CFREQUEST.
+  Variable fp : labels -> N.
+  Variable enc_len : labels -> Z.
+  Variable CS : Type.
+  Variable cache_add : CS -> Z -> N -> N -> CS * bool.
+  Variable cache0 : CS.
+  Variable threshold : Z.
+  Variable flush_limit : N.
+  Lemma cf_request_faithful_l : forall ds q ck lines, ds <> [] -> all_digits ds = true -> digits_value ds <= 65535 ->
+    let src := ddsource_of_query q in
+    exists cs, cf_request fp enc_len CS cache_add cache0 threshold flush_limit (digits_text ds) q ck lines = Done cs /\
+               Forall chunk_rect cs /\
+               rows_of cs = rows_spec fp (Z.to_N (digits_value ds)) (entries_cf src ck lines) /\
+               Forall (fun e => exists rest, e_labels e = ("ddsource"%string, src) :: rest) (entries_cf src ck lines) /\
+               src <> EmptyString /\ (q <> EmptyString -> src = q).
+  Proof.
+    intros ds q ck lines H1 H2 H3 src. unfold cf_request.
+    destruct (push_request_faithful_l fp enc_len CS cache_add cache0 threshold flush_limit ds (BCf src ck lines) H1 H2 H3) as [cs [A [B C]]].
+    exists cs. split; [exact A|split; [exact B|split; [exact C|split; [|split]]]].
+    - apply entries_cf_ddsource. apply ddsource_of_query_nonempty.
+    - apply ddsource_of_query_nonempty.
+    - apply ddsource_of_query_written.
+  Qed.
+End CFREQUEST.
